@@ -10,3 +10,4 @@ open LhasaV.Props.C10
 #print axioms deferred_link_refused
 #print axioms safe_links_resolve_inside
 #print axioms run_contained
+#print axioms LhasaV.Props.C10.run_contained_messages
